@@ -13,7 +13,8 @@ MANIFEST = dict(
     text='Lean 4 theorems over a pure model of defaultPoll.handler / appendHup / onhups / readall / ioread / iosend '
          '(Netpoll.Poll.Handler) and of the Trigger/Close wake-up protocol (Netpoll.Poll.Wake), for every flag set, callback set and '
          'system-call result script (induction over the script): data before hang-up, hang-up at most once and only after the detach, '
-         'token released exactly once, acknowledged counts equal the kernel\'s results in order, nothing after the detach, close message '
+         'token released exactly once, acknowledged counts equal the kernel\'s results in order, nothing after the detach, every queued '
+         'hang-up is reported (also when the close message is handled in the same batch), close message '
          'stops the loop after releasing both descriptors, a completed Trigger leaves the loop awake or about to be woken. '
          'The model is tied to /repo on every run: flag masks, cascade order, Control table, growth literals and wake-up messages are '
          'regenerated from the source (T-gen); the real handler is run on synthetic epoll events over real descriptors for the complete '
@@ -21,9 +22,11 @@ MANIFEST = dict(
          'real-epoll scenarios with the real Wait loop, and its callback trace is compared with the model\'s and judged by the Lean spec oracle.',
     note='Partial: which flag sets the kernel produces, level-triggered re-reporting, EPOLL_CTL_DEL semantics and one event per descriptor '
          'per epoll_wait are assumptions (A-epoll-*); the hang-up goroutine is modelled as running after the batch. '
-         'Known behaviour proved as witnesses: a close message in a batch drops hang-ups queued earlier in that batch '
-         '(C11_hup_reported_partial / C11_close_drops_hups_witness); a descriptor appearing twice in one batch gets callbacks after its detach '
-         '(excluded by A-epoll-unique). Trusted: Lean kernel, extractor, harness, line protocol.',
+         'Known behaviour proved as a witness: a descriptor appearing twice in one batch gets callbacks after its detach '
+         '(excluded by A-epoll-unique). Fixed in /repo (1a14300, regression replay corpus/C11/f01-close-drops-hups.ops): a close message in a batch '
+         'used to drop the hang-ups queued earlier in that batch; C11_hup_reported now holds for every batch, the spec oracle requires the '
+         'hang-up callback whether or not handler returns true, and the pre-fix behaviour is kept as Netpoll.Poll.HandlerOld. '
+         'Trusted: Lean kernel, extractor, harness, line protocol.',
     technique='Lean 4 proof over a handler model (all flag sets x operator kinds x syscall scripts) + exhaustive differential run of the real handler on synthetic events',
     design='§6 C11')
 MODULES = ['Netpoll.Props.C11', 'Netpoll.Tie.Poll']
@@ -131,7 +134,7 @@ def run(rep):
     rep.cov['batch_size_histogram'] = {str(k): v for k, v in sorted(sizes.items())}
     rep.cov['model_branch_histogram'] = dict(cov)
     want = ['onRead', 'onWrite', 'read-data', 'read-zero', 'read-errno', 'send-data', 'send-zero', 'send-errno', 'hup-queued', 'hup-queued-nil',
-            'detach', 'detach-already', 'wake', 'exit', 'exit-drops-hups', 'hup-run', 'real']
+            'detach', 'detach-already', 'wake', 'exit', 'exit-runs-hups', 'hup-run', 'real']
     rep.cov['model_branches_never_hit'] = [w for w in want if cov[w] == 0]
     rep.cov['samples'] = (rs[0]['samples'][:1] + rs[16]['samples'][:1] + rs[-1]['samples'][:1]) if len(rs) > 16 else rs[0]['samples']
     rep.cov['traces_validated_against_impl'] = cases
